@@ -36,7 +36,8 @@ static AWT *bq_anchor(AWT *c) {
   __CPROVER_assert(c == BQ_NODE(bqm.pos), "cursor local denotes node(pos) (re-anchoring is the identity)");
   unsigned k = bqm.pos; AWT *cur = BQ_NODE(k);
   if (k < bq_n) {
-    cur->_next = BQ_NODE(k + 1);
+    if (cur == bq_trk || cur == bq_trk2) __CPROVER_assert(cur->_next == BQ_NODE(k + 1), "C08: the link of a request is intact when the walk reaches it (nobody wrote it ahead of the cursor)");
+    else cur->_next = BQ_NODE(k + 1);                                  /* anonymous requests: materialised when reached (summary object) */
     bqm.pos = k + 1;
     if (cur == bq_trk) __CPROVER_assert(0, "SENTINEL reachable: the tracked request is reached inside the loop"); }
   return cur; }
@@ -46,6 +47,8 @@ static AWT *bq_anchor(AWT *c) {
   __CPROVER_loop_invariant(bq_m->_queue == (bqm.pos == 0 ? (AWT *)0 : BQ_NODE(bqm.pos - 1))) \
   __CPROVER_loop_invariant((bq_tpos < bq_n && bqm.pos > bq_tpos) ==> bq_trk->_next == (bq_tpos == 0 ? (AWT *)0 : BQ_NODE(bq_tpos - 1))) \
   __CPROVER_loop_invariant((bq_tpos + 1 < bq_n && bqm.pos > bq_tpos + 1) ==> bq_trk2->_next == bq_trk) \
+  __CPROVER_loop_invariant((bq_tpos < bq_n && bqm.pos <= bq_tpos) ==> bq_trk->_next == BQ_NODE(bq_tpos + 1)) \
+  __CPROVER_loop_invariant((bq_tpos + 1 < bq_n && bqm.pos <= bq_tpos + 1) ==> bq_trk2->_next == BQ_NODE(bq_tpos + 2)) \
   __CPROVER_decreases(bq_n - bqm.pos) \
   if ((req = bq_anchor(req)), 1)
 void h_bq_walk(void) {
@@ -61,6 +64,9 @@ void h_bq_walk(void) {
   *M_CELL(bq_m) = (void *)BQ_NODE(0);
   bq_m->_queue = 0;
   bqm.pos = 0;
+  /* audit F1: the tracked requests' links exist AHEAD of time (statically known) and the invariant carries them while they are not yet reached - a write to the
+   * link of a request ahead of the cursor, however it is made (also through a reference), breaks the invariant */
+  bq_trk->_next = BQ_NODE(bq_tpos + 1); bq_trk2->_next = BQ_NODE(bq_tpos + 2);
   if (bottom == 2) { stop->_next = 0; free(stop); }                      /* the stop node must not be touched */
   mx_build_queue(bq_m, stoparg);
   __CPROVER_assert(cv_exc_pending == 0 && *M_CELL(bq_m) == (void *)AW_INSTANCE, "request cell holds the doorman after the detach");
